@@ -22,20 +22,34 @@ RULE = (
     "bin count is not a multiple of k or < k, >=1 coarse pixel aggregating >=2 fine pixels, and chunksize < nnz. "
     "Distinct by sha1 of the canonical case."
     " CLI cases leave -c/-n to their defaults when the drawn value stands for 'not given'."
+    " Also: the non-decomposable aggregate 'mean' on the real-valued column (1e-12 relative); histories in which another variable-width segmentation of the SAME chromosomes is coarsened by the same factor afterwards in the same process."
 )
 ASSUMPTIONS = ["real worker pools are sampled, not scheduled (C08 'schedules' component, see DESIGN section 8)"]
 
 
 @st.composite
+def _other_segmentation(draw, bt):
+    """Another variable-width bin table over the SAME chromosomes (names and lengths)."""
+    edges = []
+    for e in bt["edges"]:
+        L = e[-1]
+        cuts = draw(st.lists(st.integers(1, max(1, L - 1)), max_size=5, unique=True)) if L > 1 else []
+        edges.append([0, *sorted(c for c in cuts if 0 < c < L), L])
+    return {"names": list(bt["names"]), "edges": edges, "kinds": ["variable"] * len(edges), "b": bt.get("b")}
+
+
+@st.composite
 def cases(draw, max_chroms=3, max_bins=6):
     bt = draw(gen.bin_tables(max_chroms=max_chroms, max_bins=max_bins))
+    hist = draw(st.sampled_from(["single", "single", "single", "chain", "merge-commute", "reuse-uri", "same-chroms"]))
+    if hist == "same-chroms" and draw(st.booleans()):
+        bt = draw(_other_segmentation(bt))      # both coolers of the history variable-width
     n = gen.n_bins(bt)
     symmetric = draw(st.booleans())
     rows = draw(gen.pixels(n, symmetric, count=st.integers(1, 1000), extra_cols=[gen.DYADIC], max_nnz=60))
     maxb = max(len(e) - 1 for e in bt["edges"])
     k = draw(st.integers(2, maxb + 2))
     nnz = len(rows)
-    hist = draw(st.sampled_from(["single", "single", "single", "chain", "merge-commute", "reuse-uri"]))
     count_float = draw(st.integers(0, 4)) == 0
     if count_float:
         rows = [[r[0], r[1], r[2] + 0.25, *r[3:]] for r in rows]
@@ -45,11 +59,20 @@ def cases(draw, max_chroms=3, max_bins=6):
             "chunksize": draw(st.sampled_from([1, 2, 3, 7, max(1, nnz), 10**6])),
             "nproc": draw(st.sampled_from([1] * 9 + [2, 3])),
             "cols": draw(st.sampled_from([None, None, ["count"], ["count", "x"]])),
-            "agg_count": draw(st.sampled_from(["sum", "sum", "sum", "max"])), "agg_x": draw(st.sampled_from(["sum", "sum", "max"])),
+            "agg_count": draw(st.sampled_from(["sum", "sum", "sum", "max"])), "agg_x": draw(st.sampled_from(["sum", "sum", "max", "mean"])),
             "history": hist, "k2": draw(st.integers(2, 4)), "rows2": rows2, "count_float": count_float,
             # reuse-uri: the SAME source URI is coarsened, re-created with another bin table and other pixels, and coarsened again
-            "bt2": draw(gen.bin_tables(max_chroms=max_chroms, max_bins=max_bins)) if hist == "reuse-uri" else None,
+            "bt2": draw(gen.bin_tables(max_chroms=max_chroms, max_bins=max_bins)) if hist == "reuse-uri" else
+                   draw(_other_segmentation(bt)) if hist == "same-chroms" else None,
             "dest": draw(st.sampled_from(["", "::/c", "same-file"])), "via": draw(st.sampled_from(["api", "api", "cli"]))}
+
+
+def _same(got, want, aggs):
+    if "mean" not in aggs:
+        return got == want
+    # the mean of exactly representable values: one correctly rounded division, compared with 1e-12 relative head-room
+    return len(got) == len(want) and all(g[:2] == w_[:2] and all(abs(a_ - b_) <= 1e-12 * max(1.0, abs(b_)) for a_, b_ in zip(g[2:], w_[2:]))
+                                         for g, w_ in zip(got, want))
 
 
 def _read(clr, cols):
@@ -119,7 +142,8 @@ def check_coarsen(case, ctx: Ctx):
         stored = list(clr.pixels()[0:0].columns)
         check(stored == ["bin1_id", "bin2_id", *cols], f"coarse cooler stores columns {stored}, requested {cols}")
         got = _read(clr, cols)
-        check(got == want, lambda: f"coarse pixels differ (k={k}, chunksize={case['chunksize']}): got {got[:6]} want {want[:6]}")
+        same = _same(got, want, aggs)
+        check(same, lambda: f"coarse pixels differ (k={k}, chunksize={case['chunksize']}, agg {aggs}): got {got[:6]} want {want[:6]}")
         fpath, gpath = out_uri.split("::") if "::" in out_uri else (out_uri, "/")
         with h5py.File(fpath, "r") as f:
             probs = schema.validate(f[gpath], expect_count_sum=(case["agg_count"] == "sum"))
@@ -132,6 +156,28 @@ def check_coarsen(case, ctx: Ctx):
 
         if case.get("count_float"):
             check(str(clr.pixels()[0:0]["count"].dtype) == "float64", f"real-valued count column coarsened into {clr.pixels()[0:0]['count'].dtype}")
+        if case["history"] == "same-chroms":
+            # second call in the process: ANOTHER segmentation of the same chromosomes, coarsened by the same factor
+            bt2 = case["bt2"]
+            n2 = gen.n_bins(bt2)
+            seen_c = {}
+            for r in rows:
+                a_, b_ = min(r[0], n2 - 1), min(r[1], n2 - 1)
+                key = (min(a_, b_), max(a_, b_)) if symmetric else (a_, b_)
+                seen_c[key] = [key[0], key[1], r[2], r[3]]
+            rows_c = [seen_c[k_] for k_ in sorted(seen_c)]
+            other = os.path.join(work, "other.cool")
+            call("create the other cooler", create_from_model, other, bt2, rows_c, symmetric, cols=("count", "x"), h5opts={"compression": None},
+                 **({"dtypes": {"count": np.dtype("float64")}} if case.get("count_float") else {}))
+            out3 = os.path.join(work, "other_coarse.cool")
+            call("coarsen_cooler (other segmentation of the same chromosomes, same factor)", cooler.coarsen_cooler, other, out3, k, case["chunksize"], nproc=case["nproc"], **kw)
+            c3 = cooler.Cooler(out3)
+            got_b3 = model.read_bins(c3)
+            check(got_b3 == model.bins_rows(model.coarsen_bins(bt2, k)),
+                  lambda: f"coarsening another segmentation of the same chromosomes: bin table {got_b3[:8]}, want {model.bins_rows(model.coarsen_bins(bt2, k))[:8]}")
+            want_c = model.coarsen_rows(bt2, _proj(rows_c, cols), k, symmetric, aggs)
+            got_c = _read(c3, cols)
+            check(_same(got_c, want_c, aggs), lambda: f"coarsening another segmentation of the same chromosomes differs: got {got_c[:6]} want {want_c[:6]}")
         if case["history"] == "reuse-uri":
             bt2 = case["bt2"]
             n2 = gen.n_bins(bt2)
@@ -149,7 +195,7 @@ def check_coarsen(case, ctx: Ctx):
             check(model.read_bins(c2) == model.bins_rows(model.coarsen_bins(bt2, k)), "second coarsening of the re-created URI: bin table differs")
             want_b = model.coarsen_rows(bt2, _proj(rows_b, cols), k, symmetric, aggs)
             got_b = _read(c2, cols)
-            check(got_b == want_b, lambda: f"second coarsening of the re-created source URI differs: got {got_b[:6]} want {want_b[:6]}")
+            check(_same(got_b, want_b, aggs), lambda: f"second coarsening of the re-created source URI differs: got {got_b[:6]} want {want_b[:6]}")
         if case["history"] == "chain" and case["agg_count"] == "sum" and aggd["x"] == "sum":
             k2 = case["k2"]
             o2 = os.path.join(work, "chain.cool")
